@@ -130,6 +130,14 @@ type HarnessResult struct {
 	ExecTime     time.Duration
 	Broken       string
 	SolverWins   map[string]int
+	Retry        []retryItem
+}
+
+type retryItem struct {
+	Idx     int
+	As      []*Term
+	Vars    []*Term
+	Nondets []NondetRec
 }
 
 type Checker struct {
@@ -333,6 +341,7 @@ func (c *Checker) RunHarness(sp HarnessSpec) *HarnessResult {
 				if errs != "" {
 					ob.Solver = errs
 				}
+				res.Retry = append(res.Retry, retryItem{Idx: len(res.Obligations), As: as, Vars: nvars, Nondets: st.Nondets})
 			}
 			res.Obligations = append(res.Obligations, ob)
 		}
@@ -463,6 +472,35 @@ func runProperty(plan *PropertyPlan, tier string, seed int, verbose bool) int {
 		}(i)
 	}
 	wg.Wait()
+
+	// obligations left undecided under load are retried one at a time with a 5x cap
+	retried := 0
+	for _, r := range results {
+		if r == nil || len(r.Retry) == 0 {
+			continue
+		}
+		pf := NewPortfolio([]string{"z3-new", "z3", "cvc5"})
+		for _, it := range r.Retry {
+			retried++
+			tq := time.Now()
+			res, m, who, _ := pf.CheckAll(it.As, 5*chk.ObTimeout, it.Vars)
+			ob := &r.Obligations[it.Idx]
+			ob.Ms += time.Since(tq).Milliseconds()
+			switch res {
+			case Unsat:
+				ob.Verdict, ob.Solver = "unsat", who+" (retry)"
+			case Sat:
+				ob.Verdict, ob.Solver = "sat", who+" (retry)"
+				if m != nil {
+					ob.Vector = modelVector(it.Nondets, m)
+				}
+			}
+		}
+		pf.Close()
+	}
+	if retried > 0 {
+		fmt.Printf("[%s] %d obligations retried sequentially\n", plan.ID, retried)
+	}
 
 	return finish(plan, ws, results, tier, seed, t0, kfs)
 }
